@@ -121,3 +121,25 @@ Proof.
   intros idx Hb. now apply to_layout_is_the_layout_array.
 Qed.
 Print Assumptions C05_layout_without_filters.
+
+(* ... and WITH filter-restricted states: shape = [number of remaining restricted combinations] ++        *)
+(* unrestricted discrete sizes ++ continuous sizes, and the entry at [rank] ++ [unrestricted discrete       *)
+(* labels] ++ [continuous indices] is the table entry of the state whose restricted labels are those of     *)
+(* the rank-th remaining combination: the documented layout IS the indexed layout array of C14's capstone   *)
+From LCM Require Import Proofs.C14_OnLayoutIx Proofs.C05_LayoutLookupIx.
+Theorem C05_layout_with_filters : forall m p t tab,
+  NoDup (map fst (states m)) ->
+  (forall sg, In sg (states m) -> is_restricted m (fst sg) = true -> is_cont (snd sg) = false) ->
+  has_restricted_states m = true ->
+  expected_shape m p t
+  = (length (remaining_labels m p t) :: fdsizes (is_restricted m) (states m) ++ cont_sizes (states m))%list /\
+  forall r rest, in_bounds (expected_shape m p t) (r :: rest) ->
+    get VUndef (to_layout m p t tab) (r :: rest)
+    = get VUndef tab (merge3 (is_restricted m) (states m) (nth r (remaining_labels m p t) [])
+                             (firstn (length (fdsizes (is_restricted m) (states m))) rest)
+                             (skipn (length (fdsizes (is_restricted m) (states m))) rest)).
+Proof.
+  intros m p t tab H1 H2 H3. split; [now apply expected_shape_with_filters|].
+  intros r rest Hb. now apply to_layout_is_the_indexed_layout_array.
+Qed.
+Print Assumptions C05_layout_with_filters.
